@@ -311,6 +311,9 @@ def close(a, b, rtol=1e-5, atol=1e-6, equal_nan=False):
 def bit_equal(a, b):
   a = np.asarray(a)
   b = np.asarray(b)
+  if a.dtype.kind in 'SU' and a.dtype.kind == b.dtype.kind:
+    # fixed-width strings: the width is storage, not value (np.concatenate widens to the widest piece it is given)
+    return a.shape == b.shape and bool(np.array_equal(a, b))
   if a.dtype != b.dtype or a.shape != b.shape:
     return False
   if a.dtype == object:
